@@ -25,7 +25,7 @@ func init() {
 				"Line (from its line parameter or the lexer's current line) and TemplatePath (from t.Name). (C12.early) in the parser, a line number handed to a constructor is read before any nested " +
 				"body (itemList) is parsed on that path, so multi-line constructs carry the line of their opening action. (C12.pos) every panic reachable from Execute is raised through NodeBase.errorf " +
 				"(and so carries file and line); functions that panic with a bare error are enumerated. (C12.stream) outside executeTry (and exec's Discard) nothing replaces the output Writer, so output " +
-				"produced before a failing action has already been written.",
+				"produced before a failing action has already been written. (C12.piped) every dereference of a piped-value pointer (a *reflect.Value parameter or Arguments.pipedVal) lies where the pointer is known to be non-nil, so a '_' placeholder without a piped value is an error, not a nil dereference.",
 			NotDecided:  "that the recorded line is the action's own line for multi-line actions (lexer look-ahead); errors returned as a second result by reflected user functions (dropped by the call path: observed, not decided); writer errors.",
 			Assumptions: []string{"panics raised inside the standard library's reflect package are strings or runtime errors"},
 			Trusted:     commonTrusted,
